@@ -42,7 +42,8 @@ ASSUMPTIONS = ['harness component functions are complex-safe and evaluated with 
 
 MECHANISMS = ('rel-step-frozen-at-first-linearization', 'mixed-wrt-options', 'colored-rel-step-from-single-wrt',
               'colored-cs-sparsity-by-fd-with-cs-step', 'approx-group-with-implicit-comp',
-              'approx-group-block-reuses-component-subjac')
+              'approx-group-block-reuses-component-subjac', 'approx-group-under-assembled-jacobian',
+              'approx-group-with-matrix-free-comp', 'approx-group-with-own-gradient-solver')
 SCENARIOS = ['partials', 'partials', 'partials', 'colored', 'colored', 'semitotal', 'semitotal', 'total']
 
 
@@ -890,6 +891,13 @@ def _run_group(case, acc):
     if not members:
         raise HarnessSkip('group-without-components')
     solv = _sub_solvers(node)
+    asm_ancestor = False
+    nd = spec['tree']
+    for gname in (None,) + tuple(gpath[:-1]):
+        if gname is not None:
+            nd = [ch for ch in nd['children'] if ch.get('group') == gname][0]
+        ln = nd.get('ln', {})
+        asm_ancestor = asm_ancestor or (ln.get('type') == 'direct' and bool(ln.get('assemble_jac')))
     iterative = any(nl != 'runonce' or cyc for nl, cyc in solv)
     opts = kit.rand_opts(rng, small_steps=False)
     opts.pop('minimum_step', None)            # approx_totals has no minimum_step argument
@@ -907,11 +915,19 @@ def _run_group(case, acc):
     first = True
 
     has_imp = any(c['kind'] == 'imp' and c['name'] in members for c in spec['comps'])
+    own_grad = node.get('nl', {}).get('type') in ('newton', 'broyden')
+    has_mf = any(c.get('matfree') and c['name'] in members for c in spec['comps'])
 
     def K(what):
         if has_imp and not total and 'raises:RuntimeError@direct.py' in what:
             # the (state, state) block of the approximated group is not the explicit -1 diagonal
             return 'approx-group-with-implicit-comp:%s:%s' % (scen0, what)
+        if has_mf and not total and 'raises:RuntimeError@direct.py' in what:
+            # no (state, state) block at all for a component without declared partials
+            return 'approx-group-with-matrix-free-comp:%s:%s' % (scen0, what)
+        if own_grad and not total and 'raises:' in what and '@direct.py' in what:
+            # the approximated group itself is solved by Newton/Broyden with a DirectSolver
+            return 'approx-group-with-own-gradient-solver:%s:%s' % (scen0, what)
         return '%s:%s:%s' % (scen0, what, opts['method'] + ('+iterative' if iterative else ''))
     judged_blocks = 0
     nonlin = False
@@ -993,6 +1009,7 @@ def _run_group(case, acc):
             first = _restore_viols(acc, _cmp_snap(acc, before, _snap(prob.model)), K, api, case, first)
             acc.count('obs:restore-around-%s-approx' % scen0)
             out = []
+            maxbound = None
             ofs = spec['of'] if total else [o['name'] for m in members for o in cmap[m]['outputs']]
             for o_ in ofs:
                 a, b = fm.soff[o_]
@@ -1005,7 +1022,7 @@ def _run_group(case, acc):
                             key = (G.abs_name(spec, o_), G.abs_name(spec, w))
                             sjs = grp._jacobian._get_subjacs()
                             if key not in sjs:
-                                if np.any(S[a:b, wa:wb] != 0.0):
+                                if np.any(np.abs(S[a:b, wa:wb]) > 1e-12):
                                     out.append((cell, 'missing-block', 'no sub-jacobian %s but exact is nonzero' %
                                                 (key,)))
                                 continue
@@ -1022,6 +1039,7 @@ def _run_group(case, acc):
                     h = kit.doc_step(opts, pcol)
                     bound, T, R = _total_bound(kit, form, h, D, M2[a:b, wa:wb], M3[a:b, wa:wb], eu[a:b], pcol)
                     err = np.abs(J - D)
+                    maxbound = max(maxbound or 0.0, float(bound.max(initial=0.0)))
                     judged_blocks += 1
                     nonlin = nonlin or bool(np.any(M2[a:b, wa:wb] > 0))
                     if not np.all(np.isfinite(J)) or np.any(err > bound):
@@ -1063,6 +1081,52 @@ def _run_group(case, acc):
                                         else cell, 'state-diagonal',
                                         'block d %s/d %s of the approximated group is not -I: %s' %
                                         (o_, o_, np.round(np.diag(Dg) if Dg.ndim == 2 else Dg, 6).tolist())))
+            if not total and judge_values and maxbound is not None:
+                # totals of the whole model THROUGH the approximated group (its parents use the approximated
+                # jacobian in their linear solves).  First-order perturbation bound of the linear system:
+                # |dS| <= |Ju^-1| (|dJu| |S| + |dJp|), every perturbed entry <= maxbound (the semi-total bound),
+                # group rows are used in explicit form (factor max(1,|Ju|)); slack factor 10.
+                try:
+                    fmF = FlatModel(spec)
+                    pF = fmF.p0()
+                    uF, convF = fmF.solve(pF)
+                    if convF and fmF.selfcheck(uF, pF) < 1e-8:
+                        JuF, _ = fmF.jac(uF, pF)
+                        SF, condF = fmF.du_dp(uF, pF)
+                        if condF < 1e6:
+                            NF = np.linalg.inv(JuF)
+                            tolF = 10.0 * np.abs(NF).sum(axis=1).max() * max(1.0, np.abs(JuF).sum(axis=1).max()) * \
+                                (1.0 + np.abs(SF).sum(axis=1).max(initial=0.0)) * fmF.nstate * maxbound + 1e-8
+                            # OpenMDAO rejects wrt variables whose source lies inside an approximated group
+                            wrts = [w for w in spec['wrt'] if fmF.out_owner.get(w) not in members_all]
+                            if not wrts:
+                                raise HarnessSkip('_no_external_wrt')
+                            of_n = [G.top_name(spec, o) for o in spec['of']]
+                            wrt_n = [G.top_name(spec, w) for w in wrts]
+                            Jm = prob.compute_totals(of=of_n, wrt=wrt_n, return_format='array')
+                            Jr = np.vstack([np.hstack([fmF.total(o, w, uF, pF, SF) for w in wrts])
+                                            for o in spec['of']])
+                            em = np.abs(Jm - Jr)
+                            if fmon.failures:
+                                acc.count('skip-obs:model-totals-linear-solver-nonconvergence')
+                            else:
+                                acc.count('obs:model-totals-through-approx-group')
+                            if fmon.failures:
+                                pass
+                            elif Jm.shape != Jr.shape or not np.all(np.isfinite(Jm)) or em.max(initial=0.0) > tolF:
+                                kp = cell
+                                if asm_ancestor:
+                                    kp = 'approx-group-under-assembled-jacobian'
+                                elif any(k_.startswith(MECHANISMS) for k_, _, _ in out):
+                                    kp = [k_ for k_, _, _ in out if k_.startswith(MECHANISMS)][0]
+                                out.append((kp, 'model-totals', 'totals of the model through the approximated group '
+                                            'differ from exact by %.3e (> %.3e); e.g. got %.8g exact %.8g' %
+                                            (em.max(), tolF, Jm.ravel()[em.argmax()], Jr.ravel()[em.argmax()])))
+                except HarnessSkip:
+                    acc.count('skip-obs:model-totals-no-external-wrt')
+                except Exception as e:
+                    _exc(acc, K, 'model-totals', e, case, first)
+                    first = False
             first = _report(acc, case, scen, out, first)
             if pt == 1:
                 frozen = {w: p[slice(*fm.poff[colname[w]])].copy() for w in colvars}
